@@ -930,6 +930,86 @@ class SxBytes:
         return "<SxBytes len=%d>" % len(s.bs)
 
 
+class SxByteArray(SxBytes):
+    """bytearray: a mutable byte sequence whose elements may be symbolic.  Every bytearray the repository creates is
+    modelled by this class from the start (a native bytearray cannot hold a symbolic element later on).  Reads behave
+    like SxBytes (slices are immutable copies); writes are the bytearray mutators the repository could use."""
+    __slots__ = ()
+
+    @staticmethod
+    def _vals(v):
+        if isinstance(v, (bytes, bytearray)):
+            return list(v)
+        if isinstance(v, SxBytes):
+            return list(v.bs)
+        if isinstance(v, (list, tuple)):
+            return list(v)
+        raise TypeError("can assign only bytes, buffers, or iterables of ints in range(0, 256)")
+
+    @staticmethod
+    def _byte(v):
+        if isinstance(v, SxInt):
+            if not bool((v >= 0) & (v <= 255)) if not isinstance((v >= 0) & (v <= 255), bool) else not ((v >= 0) & (v <= 255)):
+                raise ValueError("byte must be in range(0, 256)")
+            return v
+        if isinstance(v, bool) or not isinstance(v, int):
+            if isinstance(v, bool):
+                return int(v)
+            raise TypeError("an integer is required")
+        if not 0 <= v <= 255:
+            raise ValueError("byte must be in range(0, 256)")
+        return v
+
+    def __setitem__(s, k, v):
+        if isinstance(k, slice):
+            k = slice(*[_cidx(x, len(s.bs)) for x in (k.start, k.stop, k.step)])
+            s.bs[k] = s._vals(v)
+            return
+        if isinstance(k, SxInt):
+            k = _cidx(k, len(s.bs))
+        s.bs[k] = s._byte(v)
+
+    def __delitem__(s, k):
+        if isinstance(k, slice):
+            k = slice(*[_cidx(x, len(s.bs)) for x in (k.start, k.stop, k.step)])
+        elif isinstance(k, SxInt):
+            k = _cidx(k, len(s.bs))
+        del s.bs[k]
+
+    def append(s, v):
+        s.bs.append(s._byte(v))
+
+    def extend(s, v):
+        s.bs.extend(s._vals(v))
+
+    def __iadd__(s, v):
+        s.bs.extend(s._vals(v))
+        return s
+
+    def __add__(s, o):
+        r = SxBytes.__add__(s, o)
+        return SxByteArray(r.bs) if isinstance(r, SxBytes) else r
+
+    def insert(s, i, v):
+        s.bs.insert(_cidx(i, len(s.bs)) if isinstance(i, SxInt) else i, s._byte(v))
+
+    def pop(s, i=-1):
+        return s.bs.pop(_cidx(i, len(s.bs)) if isinstance(i, SxInt) else i)
+
+    def clear(s):
+        del s.bs[:]
+
+    def reverse(s):
+        s.bs.reverse()
+
+    def copy(s):
+        return SxByteArray(s.bs)
+
+    def __repr__(s):
+        return "<SxByteArray len=%d>" % len(s.bs)
+    __hash__ = None
+
+
 def _mkbytes(bs):
     bs = list(bs)
     if all(isinstance(b, int) for b in bs):
